@@ -57,6 +57,16 @@ def spec(tier: str, seed: int, which: str = "C18") -> Spec:
         # ... and the same with a DETACHED shared node (a root detached first, then two detached wrappers)
         for f, recv in (((3, 2),) if tier == "quick" else ((0, 0), (1, 4), (2, 4), (3, 2))):
             fams.append(Family(f"shared-detached-child-K4-forest{f}", H.make_harness(4, which, ["detach"], ["wrap-detached-required", "wrap-detached-tuple"], forest=f, first_recv=recv, last_ops=["wrap-pair", "attach"]), per_path_timeout=3.0, variables="selectors: receiver / argument per step"))
+    if which == "C19":
+        # a detached node that carries the id of a registered node elsewhere (a detached wrapper equal to
+        # the real parent of its child, or a detached clone) is then offered as replacement / child /
+        # sibling: rejected at the attach step, and nothing -- the registered twin included -- may change
+        twin_later = ["replace_with", "replace-child", "wrap-pair", "wrap-abstract-sequence", "transform-return-existing"]
+        for op in H.DETACHED_WRAPS + ["duplicate-detached"]:
+            for f in range(H.FALSY_FOREST):
+                fams.append(Family(f"detached-twin-K2-{op}-forest{f}", H.make_harness(2, which, [op], twin_later, forest=f), per_path_timeout=3.0, variables="selectors: receiver / argument per step"))
+                if tier != "quick":
+                    fams.append(Family(f"detached-twin-K3-{op}-forest{f}", H.make_harness(3, which, [op], twin_later + ["detach", "detach_self"], forest=f), per_path_timeout=3.0, variables="selectors: receiver / argument per step"))
     # nodes that are falsy in a boolean context: histories of 2 on their own forest
     for op in ("duplicate-detached", "detach", "detach_self", "replace_with-None", "new-leaf-1", "replace-noop") + (("wrap-detached-tuple",) if which == "C19" else ()):
         fams.append(Family(f"falsy-nodes-K2-first-{op}", H.make_harness(2, which, [op], forest=H.FALSY_FOREST), per_path_timeout=3.0, variables=var + "; forest with falsy node classes"))
